@@ -614,6 +614,8 @@ def behav_diff(P, Q, rename_t, rename_f, rename_o, rename_a, depth, width=6, che
         k = d[0]
         return f"initial state differs at {k}: {ip.get(k, 'absent')} vs {iq.get(k, 'absent')}", None
 
+    if depth < 0:
+        return None, []
     # -- bisimulation
     try:
         sp, sq = Side(P), Side(Q)
@@ -761,7 +763,7 @@ def roundtrip_check(P, depth, readers=("up", "default", "ai"), writer_kw=None, p
             return f"[{which}] {why}", info
         info[which] = "ok"
         # plans: the explored one and a pseudo-random one
-        gas = ground_actions(P)
+        gas = ground_actions(P) if depth >= 0 else []
         plans = []
         if steps:
             plans.append(steps)
@@ -788,3 +790,396 @@ def roundtrip_check(P, depth, readers=("up", "default", "ai"), writer_kw=None, p
             if vp != vq:
                 return f"[{which}] plan validity differs: {vp} vs {vq} for {text!r}", info
     return None, info
+
+
+# ----------------------------------------------------------------------------------------------
+# payload preparation: simplifier fixed points, what the real code computed (kind, renaming)
+# ----------------------------------------------------------------------------------------------
+
+def _map_problem_exprs(ps, fn):
+    """copy of a problem s-expression with fn applied at every expression position the writer converts"""
+    out = []
+    for sec in ps:
+        if isinstance(sec, list) and sec and sec[0] == "actions":
+            acts = ["actions"]
+            for a in sec[1:]:
+                pre = ["pre"] + [fn(c) for c in a[3][1:]]
+                effs = ["effs"] + [["eff", e[1], e[2], fn(e[3]), fn(e[4]), e[5]] for e in a[4][1:]]
+                acts.append(["action", a[1], a[2], pre, effs])
+            out.append(acts)
+        elif isinstance(sec, list) and sec and sec[0] == "goals":
+            out.append(["goals"] + [fn(g) for g in sec[1:]])
+        elif isinstance(sec, list) and sec and sec[0] == "metrics":
+            ms = ["metrics"]
+            for m in sec[1:]:
+                if m[0] == "min-action-costs":
+                    ms.append([m[0], [[a, fn(c)] for a, c in m[1]], m[2] if m[2] == "_" else fn(m[2])])
+                elif m[0] in ("min-final", "max-final"):
+                    ms.append([m[0], fn(m[1])])
+                else:
+                    ms.append(m)
+            out.append(ms)
+        else:
+            out.append(sec)
+    return out
+
+
+def simplify_problem(ps, rounds=5):
+    """(ps', P', ctx') with every expression a fixed point of the real simplifier and ps' = enc_problem(P'); None if no
+    fixed point is reached / the library rejects the simplified problem"""
+    from upx import enc_expr
+    for _ in range(rounds):
+        try:
+            P, ctx = upp.build_problem(ps)
+        except Exception:
+            return None
+        changed = [False]
+
+        def S(e):
+            enc = enc_expr(ctx.expr(e).simplify())
+            if enc != e:
+                changed[0] = True
+            return enc
+        new = _map_problem_exprs(upp.enc_problem(P), S)
+        if not changed[0] and new == ps:
+            # conjunct-wise fixed point too (the writer converts the conjuncts of a top-level `and` one by one)
+            for where, e in all_expressions(P):
+                if e.is_and() and any(a.simplify() != a for a in e.args):
+                    return None
+            return ps, P, ctx
+        try:
+            P2, _ = upp.build_problem(new)
+        except Exception:
+            return None
+        ps = upp.enc_problem(P2)
+    return None
+
+
+class ordered_constants:
+    """`Problem.domain_constants` is a Python set whose iteration order (and with it the order of the `:constants` section
+    and the suffixes the mangler hands out to colliding object names) depends on object hashes, i.e. on memory addresses.
+    The correspondence runs fix that documented nondeterminism to the problem's declaration order."""
+
+    def __enter__(self):
+        from unified_planning.model import Problem
+        self.cls, self.orig = Problem, Problem.domain_constants
+        orig = self.orig
+
+        def in_order(problem):
+            cs = orig.fget(problem)
+            return [o for o in problem.all_objects if o in cs]
+        Problem.domain_constants = property(in_order)
+        return self
+
+    def __exit__(self, *a):
+        self.cls.domain_constants = self.orig
+
+
+def derive(P, writer_kw=None):
+    """what the real code computes and the model takes as parameters: kind features, renaming table; plus the texts"""
+    from unified_planning.io import PDDLWriter
+    from unified_planning.io.pddl_writer import _get_pddl_name
+    import unified_planning.model as M
+    from unified_planning.model.types import _UserType
+    w = PDDLWriter(P, **(writer_kw or {}))
+    with ordered_constants():
+        dom, prob = w.get_domain(), w.get_problem()
+    ren = []
+    for item, new in w.otn_renamings.items():
+        if isinstance(item, _UserType):
+            ren.append(["ty", item.name, new])
+        elif isinstance(item, M.Fluent):
+            ren.append(["fluent", item.name, new])
+        elif isinstance(item, M.Object):
+            ren.append(["obj", item.name, new])
+        elif isinstance(item, M.Action):
+            ren.append(["action", item.name, new])
+        elif isinstance(item, M.Parameter):
+            ren.append(["param", item.name, item.type.name, new])
+        elif isinstance(item, M.Variable):
+            ren.append(["var", item.name, item.type.name, new])
+        else:
+            raise ValueError(f"unexpected renamed item {item!r}")
+    ren.sort(key=sexp.dumps)
+    ren = [["problem", _get_pddl_name(P, w.pddl_keywords)]] + ren
+    kind = sorted(P.kind.features)
+    return w, dom, prob, ["kind"] + kind, ["ren"] + ren
+
+
+# ----------------------------------------------------------------------------------------------
+# canonical forms used when comparing model and code
+# ----------------------------------------------------------------------------------------------
+
+def canon_domain_tree(tree):
+    """the `:constants` section lists a Python set: sort its `name - type` triples"""
+    out = []
+    for sec in tree:
+        if isinstance(sec, list) and sec and sec[0] == ":constants":
+            body = sec[1:]
+            if len(body) % 3 == 0 and all(body[i + 1] == "-" for i in range(0, len(body), 3)):
+                triples = sorted([body[i:i + 3] for i in range(0, len(body), 3)])
+                sec = [":constants"] + [x for t in triples for x in t]
+        out.append(sec)
+    return out
+
+
+def canon_read_problem(ps, const_names=None, sort_effects=False):
+    """canonical form of a problem read back: type table sorted; effect conditions simplified by the real simplifier
+    (the UP reader simplifies `when` conditions, the model does not) and effects with a `false` condition dropped;
+    objects that were written in the `:constants` section (hash order) sorted among themselves"""
+    from upx import Ctx, enc_expr
+    types = [(n, None if f == "_" else f) for n, f in upp.get(ps, "types")]
+    # fathers first for Ctx
+    order, names = [], set()
+    guard = 0
+    while len(order) < len(types) and guard < 100:
+        guard += 1
+        for n, f in types:
+            if n not in names and (f is None or f in names or f not in dict(types)):
+                order.append((n, f))
+                names.add(n)
+    ctx = Ctx(order)
+    out = []
+    for sec in ps:
+        if isinstance(sec, list) and sec and sec[0] == "types":
+            out.append(["types"] + sorted(sec[1:]))
+        elif isinstance(sec, list) and sec and sec[0] == "objects" and const_names is not None:
+            objs = sec[1:]
+            k = 0
+            while k < len(objs) and objs[k][0] in const_names:
+                k += 1
+            out.append(["objects"] + sorted(objs[:k]) + objs[k:])
+        elif isinstance(sec, list) and sec and sec[0] == "actions":
+            acts = ["actions"]
+            for a in sec[1:]:
+                effs = []
+                for e in a[4][1:]:
+                    c = ctx.expr(e[4]).simplify()
+                    if c.is_false():
+                        continue
+                    ce = enc_expr(c)
+                    # the Effect keeps only the quantified variables that still occur
+                    used = sexp.dumps([e[2], e[3], ce])
+                    vs = [v for v in e[5] if sexp.dumps(["v", v[0], v[1]]) in used]
+                    effs.append(["eff", e[1], e[2], e[3], ce, vs])
+                if sort_effects:
+                    effs.sort(key=sexp.dumps)
+                acts.append(["action", a[1], a[2], a[3], ["effs"] + effs])
+            out.append(acts)
+        else:
+            out.append(sec)
+    return out
+
+
+# ----------------------------------------------------------------------------------------------
+# PDDL texts in forms the writer never emits (input of the reader correspondence)
+# ----------------------------------------------------------------------------------------------
+
+def _groups(flat):
+    """[n, n, -, t, n, ...] -> [([n, n], t), ([n], None)]"""
+    out, pend, i = [], [], 0
+    while i < len(flat):
+        if flat[i] == "-" and i + 1 < len(flat):
+            out.append((pend, flat[i + 1]))
+            pend = []
+            i += 2
+        else:
+            pend.append(flat[i])
+            i += 1
+    if pend:
+        out.append((pend, None))
+    return out
+
+
+def _flat(groups):
+    out = []
+    for ns, t in groups:
+        out.extend(ns)
+        if t is not None:
+            out.extend(["-", t])
+    return out
+
+
+class Variants:
+    """random, mostly meaning-preserving rewrites of the trees of a written domain/problem"""
+
+    def __init__(self, rng, p=0.3):
+        self.rng, self.p = rng, p
+        self.tags = set()
+
+    def hit(self, tag, p=None):
+        if self.rng.random() < (self.p if p is None else p):
+            self.tags.add(tag)
+            return True
+        return False
+
+    def typed(self, flat, allow_untyped=False):
+        gs = _groups(flat)
+        # merge neighbours of one type
+        merged = []
+        for ns, t in gs:
+            if merged and merged[-1][1] == t and self.hit("multi-typed-list"):
+                merged[-1] = (merged[-1][0] + ns, t)
+            else:
+                merged.append((list(ns), t))
+        if allow_untyped and merged and self.hit("untyped", 0.08):
+            # only the trailing group can lose its type without capturing the following names
+            ns, t = merged[-1]
+            merged[-1] = (ns, None)
+        return _flat(merged)
+
+    def case(self, s):
+        if isinstance(s, str) and s and s[0].isalpha() and self.hit("upper-case", 0.05):
+            return s.upper()
+        return s
+
+    def expr(self, e):
+        if isinstance(e, str):
+            if e and e[0] == "-" and len(e) > 1 and e[1].isdigit() and self.hit("unary-minus", 0.3):
+                return ["-", e[1:]]
+            return self.case(e)
+        if not e:
+            return e
+        h = e[0]
+        if h in ("exists", "forall") and len(e) == 3 and isinstance(e[1], list):
+            return [h, self.typed(e[1]), self.expr(e[2])]
+        args = [self.expr(a) for a in e[1:]]
+        if h in ("and", "or") and len(args) >= 3 and self.hit("nested-" + h):
+            k = self.rng.randrange(1, len(args) - 1)
+            return [h] + args[:k] + [[h] + args[k:]]
+        if h in ("and", "or") and len(args) == 2 and self.hit("unary-" + h, 0.1):
+            return [h, args[0], [h, args[1]]]
+        if h == "<=" and len(args) == 2 and self.hit("ge"):
+            return [">=", args[1], args[0]]
+        if h == "<" and len(args) == 2 and self.hit("gt"):
+            return [">", args[1], args[0]]
+        if h == "not" and len(args) == 1 and self.hit("triple-not", 0.05):
+            return ["not", ["not", ["not", args[0]]]]
+        if h in ("+", "*") and len(args) == 2 and isinstance(args[1], list) and args[1] and args[1][0] == h \
+                and self.hit("n-ary-" + ("plus" if h == "+" else "times")):
+            return [h, args[0]] + args[1][1:]
+        return [self.case(h) if isinstance(h, str) else self.expr(h)] + args
+
+    def effect(self, e):
+        if isinstance(e, str) or not e:
+            return e
+        h = e[0]
+        if h == "and":
+            subs = [self.effect(x) for x in e[1:]]
+            if len(subs) >= 3 and self.hit("nested-and-effect", 0.15):
+                k = self.rng.randrange(1, len(subs) - 1)
+                return ["and"] + subs[:k] + [["and"] + subs[k:]]
+            return ["and"] + subs
+        if h == "when" and len(e) == 3:
+            return ["when", self.expr(e[1]), self.effect(e[2])]
+        if h == "forall" and len(e) == 3:
+            return ["forall", self.typed(e[1]), self.effect(e[2])]
+        if h in ("assign", "increase", "decrease") and len(e) == 3:
+            return [h, self.expr(e[1]), self.expr(e[2])]
+        return self.expr(e)
+
+    def action(self, a):
+        out, i = [], 0
+        keys = {}
+        body = a[:]
+        while i < len(body):
+            k = body[i]
+            if k == ":parameters":
+                out += [k, self.typed(body[i + 1], allow_untyped=True)]
+                i += 2
+            elif k == ":precondition":
+                out += [k, self.expr(body[i + 1])]
+                keys["pre"] = True
+                i += 2
+            elif k == ":effect":
+                if "pre" not in keys and self.hit("empty-precondition", 0.3):
+                    out += [":precondition", self.rng.choice([[], ["and"]])]
+                out += [k, self.effect(body[i + 1])]
+                i += 2
+            else:
+                out.append(k)
+                i += 1
+        return out
+
+    def domain(self, dom, prob):
+        """returns (domain', problem')"""
+        d, q = [], list(prob)
+        moved = []
+        # objects of the problem file may be declared as constants instead
+        for j, sec in enumerate(q):
+            if isinstance(sec, list) and sec and sec[0] == ":objects":
+                gs = _groups(sec[1:])
+                keep = []
+                for ns, t in gs:
+                    for n in ns:
+                        if self.hit("object-as-constant", 0.15):
+                            moved.append(([n], t))
+                        else:
+                            keep.append(([n], t))
+                q[j] = [":objects"] + self.typed(_flat(keep))
+        seen_consts = False
+        for sec in dom:
+            if not isinstance(sec, list) or not sec:
+                d.append(sec)
+                continue
+            h = sec[0]
+            if h == ":types":
+                gs = _groups(sec[1:])
+                if len(gs) > 1 and self.hit("types-reordered"):
+                    self.rng.shuffle(gs)
+                d.append([h] + _flat(gs))
+            elif h == ":constants":
+                seen_consts = True
+                d.append([h] + self.typed(sec[1:] + _flat(moved)))
+            elif h in (":predicates", ":functions"):
+                if moved and not seen_consts:
+                    d.append([":constants"] + self.typed(_flat(moved)))
+                    seen_consts = True
+                items = []
+                for it in sec[1:]:
+                    if isinstance(it, list) and it:
+                        items.append([it[0]] + self.typed(it[1:], allow_untyped=True))
+                        if h == ":functions" and self.hit("function-number", 0.2):
+                            items += ["-", "number"]
+                    else:
+                        items.append(it)
+                d.append([h] + items)
+            elif h == ":action":
+                if moved and not seen_consts:
+                    d.append([":constants"] + self.typed(_flat(moved)))
+                    seen_consts = True
+                d.append(self.action(sec))
+            else:
+                d.append(sec)
+        if moved and not seen_consts:
+            d.append([":constants"] + self.typed(_flat(moved)))
+        # problem
+        out = []
+        for sec in q:
+            if isinstance(sec, list) and sec and sec[0] == ":init":
+                items = [self.expr(x) for x in sec[1:]]
+                atoms = [x for x in items if isinstance(x, list) and x and x[0] not in ("=", "at")]
+                if atoms and self.hit("negative-init-literal", 0.15):
+                    items.insert(self.rng.randrange(len(items) + 1), ["not", self.rng.choice(atoms)])
+                out.append([":init"] + items)
+            elif isinstance(sec, list) and sec and sec[0] == ":goal":
+                out.append([":goal", self.expr(sec[1])])
+            elif isinstance(sec, list) and sec and sec[0] == ":metric" and len(sec) == 3:
+                out.append([":metric", sec[1], self.expr(sec[2])])
+            else:
+                out.append(sec)
+        return d, out
+
+
+def render_text(rng, tree):
+    """tree -> text with random line breaks and comments"""
+    def go(t, depth):
+        if isinstance(t, str):
+            return t
+        parts = [go(x, depth + 1) for x in t]
+        sep = "\n" + " " * depth if depth <= 1 else " "
+        s = "(" + sep.join(parts) + ")"
+        if depth == 1 and rng.random() < 0.1:
+            s += " ; a comment (with parentheses"
+        return s
+    return go(tree, 0) + "\n"
